@@ -22,7 +22,10 @@ if [ $BASE -ne 0 ]; then sleep 2; $NS "ip link set lo up; KM_REPO=$WT /verif/scr
 TESTS=$(grep -ohE "^func (Test[A-Za-z0-9_]+)" $SRC/$DEMO | awk '{print $2}' | paste -sd'|')
 DIR=$(dirname $TGT)
 cp $SRC/$DEMO $WT/$TGT
-run_demo() { for i in 1 2 3; do $NS "ip link set lo up; go test -mod=mod -vet=off -count=1 -run '^($TESTS)\$' ./$DIR" > /tmp/seedchk-$ID.demo 2>&1; rc=$?; if grep -q "dependency_monitor_test.go:34\|address already in use" /tmp/seedchk-$ID.demo; then sleep 3; continue; fi; return $rc; done; return $rc; }
+# a demonstration in the client package needs cgo off and the stub overlay delivered with the seed
+EXTRA=""; PRE=""
+if [ -f $SRC/overlay.json ]; then EXTRA="-overlay=$SRC/overlay.json"; PRE="CGO_ENABLED=0 TMPDIR=$WT/.tmp"; mkdir -p $WT/.tmp; fi
+run_demo() { for i in 1 2 3; do $NS "ip link set lo up; $PRE go test -mod=mod -vet=off -count=1 $EXTRA -run '^($TESTS)\$' ./$DIR" > /tmp/seedchk-$ID.demo 2>&1; rc=$?; if grep -q "dependency_monitor_test.go:34\|address already in use" /tmp/seedchk-$ID.demo; then sleep 3; continue; fi; return $rc; done; return $rc; }
 run_demo; WITH=$?
 cp /tmp/seedchk-$ID.demo /tmp/seedchk-$ID.demo.with
 git apply -R $PATCH
